@@ -1731,7 +1731,7 @@ fn main() {
   }
 
   // ---- (b) random walks
-  let total_walks: u64 = if thorough { 400_000 } else { 16_000 };
+  let total_walks: u64 = if thorough { 1_000_000 } else { 16_000 };
   let per_shard = ((total_walks * scale / 1000) / args.nshards.max(1)).max(3);
   let mut rng = args.rng(4);
   let n_core = per_shard / 2;
